@@ -80,6 +80,7 @@ fn disconnect_permit_is_sticky<const N: u8, const USE_RECV: bool>() {
 
 
 //@ obligation: C07.3.0
+//@ property: C07
 //@ kind: K2
 //@ complete: yes
 //@ functions: mpmc::InnerQueue::try_recv, InnerQueue::recv, InnerQueue::drop_tx, InnerQueue::send
@@ -98,6 +99,8 @@ fn c07_3_sticky_n0_try() {
 }
 
 //@ obligation: C07.3.1
+//@ tier: thorough
+//@ property: C07
 //@ kind: K2
 //@ complete: yes
 //@ functions: mpmc::InnerQueue::try_recv, InnerQueue::recv, InnerQueue::drop_tx, InnerQueue::send
@@ -116,6 +119,7 @@ fn c07_3_sticky_n0_recv() {
 }
 
 //@ obligation: C07.3.2
+//@ property: C07
 //@ kind: K2
 //@ complete: yes
 //@ functions: mpmc::InnerQueue::try_recv, InnerQueue::recv, InnerQueue::drop_tx, InnerQueue::send
@@ -134,6 +138,8 @@ fn c07_3_sticky_n1_try() {
 }
 
 //@ obligation: C07.3.3
+//@ tier: thorough
+//@ property: C07
 //@ kind: K2
 //@ complete: yes
 //@ functions: mpmc::InnerQueue::try_recv, InnerQueue::recv, InnerQueue::drop_tx, InnerQueue::send
@@ -152,6 +158,7 @@ fn c07_3_sticky_n2_recv() {
 }
 
 //@ obligation: C06.5a
+//@ property: C06
 //@ kind: K3
 //@ complete: yes
 //@ functions: mpmc::InnerQueue::send, InnerQueue::try_recv, InnerQueue::recv, InnerQueue::drop_rx
